@@ -123,6 +123,10 @@ func (vm *Vm) Run(ctx context.Context, b []byte) ([]byte, error) {
 	// a new run compares its input afresh; within a run a match blocks all later INCMP
 	if !vm.st.MatchFlag(state.FLAG_TERMINATE, true) {
 		vm.st.ResetFlag(state.FLAG_INMATCH)
+	} else {
+		// a blocked session runs nothing, so it has nothing to show either
+		// (a request that failed after the block was set leaves its page pending)
+		vm.st.ResetFlag(state.FLAG_DIRTY)
 	}
 	// an error recorded for the page of a previous run that failed was never shown; it must not turn up now
 	vm.pg = vm.pg.WithError(nil)
